@@ -296,6 +296,7 @@ func (e *c09Env) ruleChoke() {
 	pickFor := c.FuncObj(c09PP, "(*PiecePicker).PickFor")
 	pdNew := c.FuncObj("internal/piecedownloader", "New")
 	m := 0
+	var mayReq *kit.Spec
 	for _, s := range sortSites(c.CallSites(reqBlocks)) {
 		m++
 		key := e.k.key(s.Fn, "call PieceDownloader.RequestBlocks")
@@ -315,22 +316,26 @@ func (e *c09Env) ruleChoke() {
 				}
 			}
 		}
-		fl := &kit.Flow{P: c.Prog, Fn: s.Fn}
-		fl.Edge = func(a kit.Atom) bool {
-			return a.IsTrue(func(x *kit.Expr) bool { return x.IsField(fPDAF) }) ||
-				a.IsFalse(func(x *kit.Expr) bool { return x.IsField(e.fPeerChoking) })
+		// function-agnostic fact (keyed on fields): evaluated at the call including
+		// the context of the static callers, so that the request emission may sit
+		// in a helper that is called under the guard
+		if mayReq == nil {
+			mayReq = &kit.Spec{P: c.Prog,
+				Edge: func(a kit.Atom) bool {
+					return a.IsTrue(func(x *kit.Expr) bool { return x.IsField(fPDAF) }) ||
+						a.IsFalse(func(x *kit.Expr) bool { return x.IsField(e.fPeerChoking) })
+				},
+				Instr: func(ins ssa.Instruction, in bool) bool {
+					if v, ok := kit.StoresField(ins, e.fPeerChoking); ok {
+						return kit.Canon(v).IsConstBool(false)
+					}
+					if in && (c.KillsField(ins, e.fPeerChoking) || c.KillsField(ins, fPDAF)) {
+						return false
+					}
+					return in
+				}}
 		}
-		fl.Instr = func(ins ssa.Instruction, in bool) bool {
-			if v, ok := kit.StoresField(ins, e.fPeerChoking); ok {
-				return kit.Canon(v).IsConstBool(false)
-			}
-			if in && (c.KillsField(ins, e.fPeerChoking) || c.KillsField(ins, fPDAF)) {
-				return false
-			}
-			return in
-		}
-		fl.Solve()
-		if fl.Before(s.Instr) {
+		if mayReq.Holds(s.Instr, 2) {
 			c.OK("R09.2", key, posOf(s.Instr), "RequestBlocks dominated by 'pd.AllowedFast or PeerChoking==false'")
 		} else {
 			c.Bad("R09.2", key, posOf(s.Instr), "RequestBlocks reachable while the peer may be choking us and the download is not allowed-fast")
@@ -366,6 +371,10 @@ func (e *c09Env) ruleOnePerPeer() {
 	newTorrent := c.Func("torrent", "newTorrent")
 	fMap := c.Field("torrent", "torrent", "pieceDownloaders")
 
+	// the two writers, and the helpers that exist only as a part of them
+	// (every use is a plain call from the writer or from such a helper)
+	startOwned, closeOwned := c09OwnedBy(c, start), c09OwnedBy(c, closePD)
+
 	// writers of Peer.Downloading
 	w := 0
 	for _, s := range fieldStores(c, e.fDownloading) {
@@ -373,7 +382,7 @@ func (e *c09Env) ruleOnePerPeer() {
 		key := e.k.key(s.Fn, "store Peer.Downloading")
 		val := kit.Canon(s.Val)
 		switch {
-		case s.Fn == start && val.IsConstBool(true), s.Fn == closePD && val.IsConstBool(false):
+		case startOwned[s.Fn] && val.IsConstBool(true), closeOwned[s.Fn] && val.IsConstBool(false):
 			c.Present("R09.3", key, posOf(s.Store), "Peer.Downloading = %s in %s", val, c09ShortName(s.Fn))
 		default:
 			c.Bad("R09.3", key, posOf(s.Store), "Peer.Downloading = %s written in %s: only startSinglePieceDownloader (true) and closePieceDownloader (false) may change it", val, kit.FuncName(s.Fn))
@@ -391,7 +400,7 @@ func (e *c09Env) ruleOnePerPeer() {
 			}
 			mw++
 			key := e.k.key(f, kind+" torrent.pieceDownloaders")
-			if (kind == "insert" && f == start) || (kind == "delete" && f == closePD) {
+			if (kind == "insert" && startOwned[f]) || (kind == "delete" && closeOwned[f]) {
 				c.Present("R09.3", key, posOf(ins), "%s in %s", kind, c09ShortName(f))
 			} else {
 				c.Bad("R09.3", key, posOf(ins), "torrent.pieceDownloaders %s in %s: the map and Peer.Downloading can disagree", kind, kit.FuncName(f))
@@ -424,7 +433,7 @@ func (e *c09Env) together(fn *ssa.Function, fMap *types.Var, kind string, want b
 	var mapIns []ssa.Instruction
 	var keys []ssa.Value
 	var stores []*ssa.Store
-	kit.Instrs(fn, func(ins ssa.Instruction) {
+	c.InstrsDeep(fn, 2, false, func(ins ssa.Instruction) {
 		if k, key := c09MapWrite(ins, fMap); k == kind {
 			mapIns = append(mapIns, ins)
 			keys = append(keys, key)
@@ -448,12 +457,12 @@ func (e *c09Env) together(fn *ssa.Function, fMap *types.Var, kind string, want b
 	happened := func(is func(ssa.Instruction) bool) *kit.Flow {
 		fl := &kit.Flow{P: c.Prog, Fn: fn}
 		fl.Instr = func(ins ssa.Instruction, in bool) bool { return in || is(ins) }
-		return fl.Solve()
+		return fl.WithDeep(kit.DefaultDeep, nil).Solve()
 	}
 	never := func(is func(ssa.Instruction) bool) *kit.Flow {
 		fl := &kit.Flow{P: c.Prog, Fn: fn, Entry: true}
 		fl.Instr = func(ins ssa.Instruction, in bool) bool { return in && !is(ins) }
-		return fl.Solve()
+		return fl.WithDeep(kit.DefaultDeep, nil).Solve()
 	}
 	mapDone, storeDone, mapNever, storeNever := happened(isMap), happened(isStore), never(isMap), never(isStore)
 	for _, r := range returnsOf(fn) {
@@ -467,8 +476,9 @@ func (e *c09Env) together(fn *ssa.Function, fMap *types.Var, kind string, want b
 	for _, st := range stores {
 		base := kit.Canon(st.Addr).Base()
 		same := false
-		for _, k := range keys {
-			if kit.Canon(k).Strip().String() == base.Strip().String() {
+		for i, k := range keys {
+			// compared inside one function (a helper sees both through its own names)
+			if mapIns[i].Parent() == st.Parent() && kit.Canon(k).Strip().String() == base.Strip().String() {
 				same = true
 			}
 		}
@@ -573,4 +583,32 @@ func (e *c09Env) ruleDuplicateBound() {
 		}
 	}
 	c.Floor("R09.4", "piecepicker.New call sites", cs, 1)
+}
+
+// c09OwnedBy returns root and the functions that exist only as a part of it:
+// every use of such a function is a plain static call from root or from
+// another owned function (no go / defer / function value).
+func c09OwnedBy(c *kit.Ctx, root *ssa.Function) map[*ssa.Function]bool {
+	owned := map[*ssa.Function]bool{root: true}
+	for changed := true; changed; {
+		changed = false
+		for _, fn := range c.ModuleFunctions() {
+			if owned[fn] || fn.Parent() != nil || fn.Blocks == nil || kit.FnPkgPath(fn) != kit.FnPkgPath(root) {
+				continue
+			}
+			sites := c.StaticCallSites(fn)
+			all := len(sites) > 0
+			for _, s := range sites {
+				if s == nil || !owned[s.Parent()] {
+					all = false
+					break
+				}
+			}
+			if all {
+				owned[fn] = true
+				changed = true
+			}
+		}
+	}
+	return owned
 }
